@@ -7,7 +7,7 @@
 //! stub: c33_q_verify_signature_* only: pallas_crypto::key::ed25519::PublicKey::verify -> arbitrary bool (Ed25519 arithmetic is not decidable here; trusted total, C11)
 //! assume: well-known protocol parameters: minfee_b + minfee_a * size fits u32 (general harnesses; the wrap for mainnet's a = 44, b = 155381 and a size >= 97.6 MB is isolated in c33_q_min_fee_wrap_*), ada_per_utxo_byte < 2^32
 //! assume: ex-units harnesses (c37_* family, shared): every redeemer's mem / steps < 2^63; unrestricted: c37_q_overflow_*
-//! outside: everything that consults the UTxO HashMap or adds multi-asset values (check_preservation_of_value, collateral balance, minting, witnesses, script data hash: the unwraps in conway_coerce_to_coin are exactly there); outputs carrying assets, datums or scripts; more than one output; Byron address payloads (CBOR) in outputs; panic obligations inside validate_*_tx's own sequencing (engine M)
+//! outside: everything that consults the UTxO HashMap or adds multi-asset values (check_preservation_of_value, collateral balance, minting, witnesses, script data hash: the unwraps in conway_coerce_to_coin are exactly there); outputs carrying assets, datums or scripts; more than one output; babbage/conway outputs in the post-alonzo (map) form (tried: no verdict in 280 s for either rule -- the niche-encoded Legacy/PostAlonzo discriminant is not resolved during symbolic execution; the legacy (array) form is decided); a symbolic address header (no verdict in 280 s: header byte concrete per harness); Byron address payloads (CBOR) in outputs; panic obligations inside validate_*_tx's own sequencing (engine M)
 use crate::build::{al, ba, byron_pp, co};
 use pallas_codec::utils::{Bytes, KeepRaw, Nullable, Set};
 use pallas_primitives::alonzo::VKeyWitness;
@@ -369,10 +369,9 @@ outputs!(c33_t_output_alonzo_base, al, |raw| al_out::<57>(0x00), |b, n| alonzo::
 outputs!(c33_q_output_shelley_stake, al, |raw| al_out::<29>(0xe1), |b, n| shelley_ma::verif_hooks::check_network_id(b, n), |b| shelley_ma::verif_hooks::check_min_lovelace(b, &sh_pp_sym(), &any_era()), ());
 outputs!(c33_t_output_shelley_ent, al, |raw| al_out::<29>(0x60), |b, n| shelley_ma::verif_hooks::check_network_id(b, n), |b| shelley_ma::verif_hooks::check_min_lovelace(b, &sh_pp_sym(), &any_era()), ());
 outputs!(c33_q_output_babbage_legacy_trunc, ba, |raw| ba_legacy::<20>(raw, 0x61), |b, n| babbage::verif_hooks::check_network_id(b, n), |b| babbage::verif_hooks::check_min_lovelace(b, &ba_pp_sym()), ());
-outputs!(c33_t_output_babbage_post_ent, ba, |raw| ba_post::<29>(raw, 0x71), |b, n| babbage::verif_hooks::check_network_id(b, n), |b| babbage::verif_hooks::check_min_lovelace(b, &ba_pp_sym()), ());
-outputs!(c33_q_output_conway_post_base, co, |raw| co_post::<57>(raw, 0x00), |b, n| conway::verif_hooks::check_network_id(b, n), |b| conway::verif_hooks::check_min_lovelace(b, &co_pp_sym()), ());
+outputs!(c33_t_output_conway_legacy_base, co, |raw| co_legacy::<57>(raw, 0x00), |b, n| conway::verif_hooks::check_network_id(b, n), |b| conway::verif_hooks::check_min_lovelace(b, &co_pp_sym()), ());
 outputs!(c33_q_output_conway_legacy_ent, co, |raw| co_legacy::<29>(raw, 0x65), |b, n| conway::verif_hooks::check_network_id(b, n), |b| conway::verif_hooks::check_min_lovelace(b, &co_pp_sym()), ());
-outputs!(c33_t_output_conway_post_badhdr, co, |raw| co_post::<29>(raw, 0x90), |b, n| conway::verif_hooks::check_network_id(b, n), |b| conway::verif_hooks::check_min_lovelace(b, &co_pp_sym()), ());
+outputs!(c33_t_output_conway_legacy_badhdr, co, |raw| co_legacy::<29>(raw, 0x90), |b, n| conway::verif_hooks::check_network_id(b, n), |b| conway::verif_hooks::check_min_lovelace(b, &co_pp_sym()), ());
 
 /// vacuity twin: must come back FAILED
 #[kani::proof]
